@@ -362,7 +362,7 @@ impl Gen {
                 self.feat("thunk");
                 Val::Thunk(Box::new(self.gen_comp(ctx, c, d)), (**c).clone())
             }
-            | VTy::Var(_) => {
+            | VTy::Var(_) | VTy::Exists(..) => {
                 // only reachable through variables; callers make sure one exists
                 match candidates.last() {
                     | Some(v) => Val::Var(*v),
@@ -499,6 +499,11 @@ impl Gen {
                     if let Some(c) = self.gen_loop(ctx, ty, depth) {
                         return c;
                     }
+                }
+                | 15 if !self.pure_mode && self.rng.chance(1, 3) => {
+                    let goal = ty.clone();
+                    let show = goal == CTy::OS;
+                    return self.gen_package(ctx, depth, show, &mut |g: &mut Gen, c: &Ctx| g.gen_comp(c, &goal, depth - 1));
                 }
                 | 14 => {
                     // do (x1, .., xn) <- M; ret xi   — a destructuring bind whose tail returns one component
@@ -641,6 +646,88 @@ impl Gen {
                 panic!("generator asked for an introduction form at a polymorphic / abstract computation type")
             }
         }
+    }
+
+    /// An abstract data type as an existential package, built, opened and used:
+    ///   let pkg : exists (T : VType) . (init :: T) * (step :: Thk (T -> A -> Ret T)) * (read :: Thk (T -> Ret B)) = (W, (..)) in
+    ///   let (T', (init = i, step = s, read = r)) = pkg in
+    ///   do a <- ! s i x1; do b <- ! s a x2; do n <- ! r b; <tail with i, a, b, s, r, n in scope>
+    /// The contents are a named product or a plain one; the tail's type never mentions the abstract type.
+    fn gen_package(&mut self, ctx: &Ctx, depth: usize, show: bool, tail: &mut dyn FnMut(&mut Gen, &Ctx) -> Comp) -> Comp {
+        self.feat("existential-package");
+        let d = depth.saturating_sub(1);
+        let tv = self.fresh_tv();
+        let t = VTy::Var(tv);
+        let witness = self.gen_vty(1, false);
+        let a = if self.rng.chance(1, 2) { VTy::Int } else { VTy::Str };
+        let b = self.gen_vty(1, false);
+        let step_ty = |s: &VTy| fun(s.clone(), fun(a.clone(), ret(s.clone())));
+        let read_ty = |s: &VTy| fun(s.clone(), ret(b.clone()));
+        let named = self.rng.chance(1, 2);
+        let (f_init, f_step, f_read) = {
+            self.next_field += 1;
+            let k = self.next_field;
+            (format!("init{k}"), format!("step{k}"), format!("read{k}"))
+        };
+        let body_of = |s: &VTy| -> VTy {
+            let items = vec![s.clone(), thk(step_ty(s)), thk(read_ty(s))];
+            if named { VTy::Named(vec![(f_init.clone(), items[0].clone()), (f_step.clone(), items[1].clone()), (f_read.clone(), items[2].clone())]) } else { VTy::Prod(items) }
+        };
+        let ex_ty = VTy::Exists(tv, Box::new(body_of(&t)));
+        // contents at the witness
+        let init_v = self.gen_val(ctx, &witness, d);
+        let step_v = Val::Thunk(Box::new(self.gen_comp(ctx, &step_ty(&witness), d)), step_ty(&witness));
+        let read_v = Val::Thunk(Box::new(self.gen_comp(ctx, &read_ty(&witness), d)), read_ty(&witness));
+        let contents = if named {
+            Val::Rec(vec![(f_init.clone(), init_v), (f_step.clone(), step_v), (f_read.clone(), read_v)])
+        } else {
+            Val::Tuple(vec![init_v, step_v, read_v])
+        };
+        let pkg = self.fresh_var();
+        // opening: a fresh name for the abstract type
+        let tv2 = self.fresh_tv();
+        let t2 = VTy::Var(tv2);
+        let (i, s, r) = (self.fresh_var(), self.fresh_var(), self.fresh_var());
+        let inner_pat = if named {
+            self.feat("named-pattern");
+            Pat::Rec(vec![(f_init.clone(), Pat::Var(i)), (f_step.clone(), Pat::Var(s)), (f_read.clone(), Pat::Var(r))])
+        } else {
+            Pat::Tuple(vec![Pat::Var(i), Pat::Var(s), Pat::Var(r)])
+        };
+        let open = Pat::Unpack(tv2, Box::new(inner_pat), Some((i, witness.clone())));
+        // use: a few steps, then read
+        let steps = 1 + self.rng.below(3);
+        let mut states = vec![i];
+        let mut ctx2 = ctx.with(pkg, ex_ty.clone()).with(i, t2.clone()).with(s, thk(step_ty(&t2))).with(r, thk(read_ty(&t2)));
+        let mut step_args: Vec<Val> = Vec::new();
+        for _ in 0..steps {
+            step_args.push(self.gen_val(ctx, &a, 1));
+            let next = self.fresh_var();
+            ctx2 = ctx2.with(next, t2.clone());
+            states.push(next);
+        }
+        let n = self.fresh_var();
+        let ctx3 = ctx2.with(n, b.clone());
+        let rest = tail(self, &ctx3);
+        // show the read result so that the package's behaviour is observed even if the tail ignores it
+        // (only where the whole computation is the program's own `OS`)
+        let mut body = if show { self.gen_show(&ctx3, Val::Var(n), &b, 2, rest) } else { rest };
+        body = Comp::Do {
+            pat: Pat::Var(n),
+            bindee: Box::new(Comp::App { fun: Box::new(Comp::Force(Val::Var(r))), arg: Val::Var(*states.last().unwrap()), arg_ty: t2.clone() }),
+            bindee_ty: b.clone(),
+            tail: Box::new(body),
+        };
+        for k in (0..steps).rev() {
+            let call = Comp::App {
+                fun: Box::new(Comp::App { fun: Box::new(Comp::Force(Val::Var(s))), arg: Val::Var(states[k]), arg_ty: t2.clone() }),
+                arg: step_args[k].clone(),
+                arg_ty: a.clone(),
+            };
+            body = Comp::Do { pat: Pat::Var(states[k + 1]), bindee: Box::new(call), bindee_ty: t2.clone(), tail: Box::new(body) };
+        }
+        let opened = Comp::Let { pat: open, val: Val::Var(pkg), ty: ex_ty.clone(), tail: Box::new(body) };
+        Comp::Let { pat: Pat::Var(pkg), val: Val::Pack { witness, body: Box::new(contents) }, ty: ex_ty, tail: Box::new(opened) }
     }
 
     fn gen_match(&mut self, ctx: &Ctx, ty: &CTy, depth: usize) -> Option<Comp> {
@@ -1052,6 +1139,7 @@ impl Gen {
             | VTy::Str => Comp::WriteLine(v, Box::new(k)),
             | VTy::Unit => Comp::Let { pat: Pat::Unit, val: v, ty: VTy::Unit, tail: Box::new(Comp::WriteLine(Val::Str("unit".into()), Box::new(k))) },
             | VTy::Var(_) => Comp::WriteLine(Val::Str("<abstract>".into()), Box::new(k)),
+            | VTy::Exists(..) => Comp::WriteLine(Val::Str("<package>".into()), Box::new(k)),
             | VTy::Prod(items) => {
                 let vars: Vec<VarId> = items.iter().map(|_| self.fresh_var()).collect();
                 let mut body = k;
@@ -1196,7 +1284,12 @@ impl Gen {
             let shown = self.gen_show(&ctx2, Val::Var(x), &a, 3, rest);
             return Comp::Do { pat: Pat::Var(x), bindee: Box::new(Comp::Monadic { body: Box::new(body), ty: fty, args }), bindee_ty: a, tail: Box::new(shown) };
         }
-        match self.rng.below(8) {
+        match self.rng.below(10) {
+            | 8 => {
+                let remaining_after = remaining - 1;
+                self.gen_package(ctx, depth, true, &mut |g: &mut Gen, c: &Ctx| g.gen_statements(c, remaining_after))
+            }
+
             | 0 | 1 | 2 => {
                 // do x <- M : Ret A; show x; rest
                 self.feat("do");
@@ -1267,6 +1360,7 @@ fn mentions_data(t: &VTy, decl: usize) -> bool {
         | VTy::Named(items) => items.iter().any(|(_, t)| mentions_data(t, decl)),
         | VTy::Data(d, args) => *d == decl || args.iter().any(|t| mentions_data(t, decl)),
         | VTy::Thk(_) => false,
+        | VTy::Exists(_, body) => mentions_data(body, decl),
     }
 }
 
